@@ -2,10 +2,11 @@
 import Strengths.Driver.Units
 import Strengths.Driver.Grid
 import Strengths.Driver.Engine
+import Strengths.Driver.Kinetics
 
 namespace Strengths.Driver
 
 def allOps : List (String × Handler) :=
-  unitsOps ++ gridOps ++ engineOps
+  unitsOps ++ gridOps ++ engineOps ++ kineticsOps
 
 end Strengths.Driver
